@@ -15,10 +15,10 @@ echo "== suite with change" | tee $OUT/confirm.log
 (cd $WT && PYTHONPATH=$WT /venv/bin/python -m pytest -q -p no:cacheprovider 2>&1 | tail -1) | tee -a $OUT/confirm.log
 echo "== demo with change (must fail)" | tee -a $OUT/confirm.log
 (cd $WT && PYTHONPATH=$WT /venv/bin/python $DEMO > /tmp/demo_out_$ID.txt 2>&1; echo "exit=$?"; tail -3 /tmp/demo_out_$ID.txt) | tee -a $OUT/confirm.log
-git -C $WT stash -q
+git -C $WT apply -R $OUT/patch.diff   # (no `git stash`: the stash stack is shared by all worktrees of a repository)
 echo "== demo without change (must pass)" | tee -a $OUT/confirm.log
 (cd $WT && PYTHONPATH=$WT /venv/bin/python $DEMO > /tmp/demo_out_$ID.txt 2>&1; echo "exit=$?"; tail -1 /tmp/demo_out_$ID.txt) | tee -a $OUT/confirm.log
-git -C $WT stash pop -q
+git -C $WT apply $OUT/patch.diff
 rm -f /tmp/demo_out_$ID.txt
 rm -rf $ISO
 git -C /verif worktree add -q --detach $ISO HEAD || exit 2
